@@ -30,6 +30,32 @@ def ground(rep):
         except Exception:
             ok = False
         rep.add('ground:List.__init__', f'accepts[{mn!r},{mx!r}]', 'case_complete', ok)
+    # literal bounds are compared as NUMBERS, whatever their spelling (int or digit string, any number of digits): accepted iff min <= max
+    vals = [0, 1, 2, 5, 9, 10, 11, 19, 20, 21, 99, 100, 101, 1000]
+    wrong = []
+    for mn, mx in itertools.product(vals, repeat=2):
+        for f, g in ((int, int), (str, str), (int, str), (str, int)):
+            try:
+                X.List(frag.Stub(1, False, False), min_len=f(mn), max_len=g(mx)); acc = True
+            except Exception:
+                acc = False
+            if acc != (mn <= mx):
+                wrong.append((f(mn), g(mx), acc))
+    rep.add('ground:List.__init__', f'literal bounds: accepted iff int(min) <= int(max) [{len(vals)}^2 pairs x 4 spellings, values up to 1000]', 'case_complete',
+            not wrong, detail={'wrong': wrong[:5]}, replay={'reproduced': True, 'violated': wrong[:5]} if wrong else None)
+    # the bound written in the description is the bound of the List, digit for digit (every k up to 130, and some larger ones)
+    wrong = []
+    for k in list(range(0, 131)) + [200, 1000, 1010, 12345]:
+        for text, want in ((f'X1{{{k}}}', (str(k), str(k))), (f'X1{{{k},}}', (str(k), None)), (f'X1{{,{k}}}', (None, str(k))), (f'X1{{0,{k}}}', ('0', str(k)))):
+            try:
+                node = front.expr_of(text)
+                got = (node.min_len, node.max_len)
+            except Exception as e:
+                got = repr(e)
+            if got != want:
+                wrong.append((text, got))
+    rep.add('ground:translator.Repeat', 'e{k}, e{k,}, e{,k}, e{0,k} carry exactly the written number, for every k in 0..130 and 200, 1000, 1010, 12345', 'case_complete',
+            not wrong, detail={'wrong': wrong[:5]}, replay={'reproduced': True, 'violated': wrong[:5]} if wrong else None)
     # surface syntax -> same bounds / same options (real parser + real _create_parsing_expression, abstract operand)
     combos1 = [(f,) for f in FLAGS if f != (True, False)]
     cases = [('X1{2}', '2', '2'), ('X1{2,5}', '2', '5'), ('X1{2,}', '2', None), ('X1{,5}', None, '5'), ('X1{0}', '0', '0'),
